@@ -40,3 +40,17 @@ SPECS["C15"] = dict(
     level_note="Trusted: Kani/CBMC/CaDiCaL, rustc MIR; invariant written in harness/maxvaluetrack.rs; NaN excluded; slot counts bounded as listed in the evidence.",
     technique="Kani/CBMC bounded model checking, inductive step over symbolic invariant state",
 )
+
+
+# --------------------------------------------------------------------------------------- C19
+def _c19(prop, spec, tier, seed, args):
+    import smt_invhash
+    return smt_invhash.check(prop, spec, tier, seed, args)
+
+
+SPECS["C19"] = dict(
+    level="proof", custom=_c19, engine_name="mir-smt", harnesses=[],
+    level_text="Unbounded (loop-free code, all 2^32 / 2^64 inputs): the MIR of the four functions of the current tree is translated to bit-vector terms, cut into stages at the assignments to the hash variable, and every inverse stage is shown by SMT to undo its forward stage in both orders; composition gives both identities. Arithmetic overflow asserts of the functions are obligations too.",
+    level_note="Trusted: rustc's MIR dump, the translator lib/smt_invhash.py (cross-validated on every run against the compiled functions on ~230 concrete inputs per function), cvc5 1.0 / z3 4.8.12 (answers cross-checked; any (error or disagreement = not decided). A sat answer is replayed through the compiled functions before it is reported.",
+    technique="MIR-to-SMT-LIB2 translation, per-stage inverse lemmas decided by cvc5 (bv-as-int and bit-blasting) and z3",
+)
